@@ -158,13 +158,17 @@ def splitLines : Bytes → List Bytes
       | [] => [[b]]
       | l :: ls => (b :: l) :: ls
 
-/-- `ReadLine` also drops a CR in front of the LF (and at the end of a last piece) -/
-def dropCR (l : Bytes) : Bytes := if l.getLast? = some CR then l.dropLast else l
+/-- `ReadLine` drops a CR that stands directly in front of the LF (and only there: a CR at the very end
+    of a file without LF stays) -/
+def stripCRLF : Bytes → Bytes
+  | [] => []
+  | [b] => [b]
+  | a :: b :: r => if a = CR ∧ b = LF then LF :: stripCRLF r else a :: stripCRLF (b :: r)
 
 /-- the items the readers see from byte `off` of a data file on: every line that parses (the others
     are logged and skipped) -/
 def itemsFrom (data : Bytes) (off : Nat) : List Item :=
-  (splitLines (data.drop off)).filterMap fun l => parseLine (dropCR l)
+  (splitLines (stripCRLF (data.drop off))).filterMap parseLine
 
 /-- the items whose line (with its LF) lies wholly before byte `k` of `serialise its` -/
 def wholeLines : List Item → Nat → List Item
